@@ -126,6 +126,21 @@ func treeFamily(raw json.RawMessage) Result {
 	tpl, lerr := textwire.NewTemplate(&config.Config{TemplateDir: c.Cfg.Dir, TemplateExt: c.Cfg.Ext,
 		ErrorPagePath: c.Cfg.ErrorPage, DebugMode: c.Cfg.Debug})
 	res.Stats["nontrivial"] = 1
+	if c.Load.Any {
+		if lerr != nil && tpl != nil {
+			res.Status, res.Kind, res.Msg = "viol", "template-with-error", "NewTemplate returned a Template together with an error"
+			return res
+		}
+		if lerr == nil && tpl == nil {
+			res.Status, res.Kind, res.Msg = "viol", "nil-template", "NewTemplate returned (nil, nil)"
+			return res
+		}
+		if lerr != nil && len(c.Load.Mentions) > 0 && !mentionsAny(lerr.Error(), root, c.Cfg, c.Load.Mentions) {
+			res.Status, res.Kind = "viol", "error-does-not-identify-file"
+			res.Msg = fmt.Sprintf("load error does not identify any of %q: %s", c.Load.Mentions, firstLines(lerr.Error(), 3))
+			return res
+		}
+	}
 	if !c.Load.Any {
 		if c.Load.Ok {
 			if lerr != nil {
@@ -169,6 +184,26 @@ func treeFamily(raw json.RawMessage) Result {
 		if derr != nil {
 			res.Status, res.Msg = "skip", derr.Error()
 			return res
+		}
+		if op.Op == "EvalFile" {
+			// C18: evaluating a file by path equals evaluating its content as a string
+			abs := filepath.Join(root, strings.Trim(c.Cfg.Dir, "/"), op.Name+c.Cfg.Ext)
+			content, rerr := os.ReadFile(abs)
+			o2, e2 := textwire.EvaluateFile(abs, data)
+			if rerr != nil {
+				if e2 == nil {
+					res.Status, res.Kind, res.Msg = "viol", "missing-error", "EvaluateFile of a missing file succeeded"
+					return res
+				}
+				continue
+			}
+			o1, e1 := textwire.EvaluateString(string(content), data)
+			if (e1 == nil) != (e2 == nil) || o1 != o2 {
+				res.Status, res.Kind = "viol", "evalfile-differs"
+				res.Msg = fmt.Sprintf("EvaluateFile(%s) = (%q, %v), EvaluateString(content) = (%q, %v)", op.Name, o2, e2, o1, e1)
+				return res
+			}
+			continue
 		}
 		out, ferr := tpl.String(op.Name, data)
 		var e error
